@@ -22,6 +22,7 @@ SPAWN_LABELS = [
     ("write_slot", r"\(\*tsm\.value_mut\(\)\)\s*=\s*Some\("),
     ("cas", r"\.compare_exchange\("),
     ("set_tid_0", r"syscall!\(\s*SET_TID_ADDRESS\s*,\s*0\s*\)"),
+    ("drop_value", r"drop_in_place\(\s*tsm\.value_mut::<T>\(\)\s*\)"),
     ("tsm_dealloc", r"\btsm\.dealloc\(\)"),
     ("tls_dealloc", r"\bdealloc\(\s*get_tls_ptr\(\)"),
     ("box_closure", r"onwed_split_fn_once\(df\)"),
@@ -54,6 +55,7 @@ DROP_LABELS = [
     ("cas", r"\.compare_exchange\("),
     ("is_err", r"\.is_err\(\)"),
     ("wait", r"futex_wait_fast\("),
+    ("drop_value", r"drop_in_place\(\s*self\.tsm\.value_mut::<T>\(\)\s*\)"),
     ("tsm_dealloc", r"\.tsm\.dealloc\(\)"),
 ]
 
@@ -151,6 +153,8 @@ def generate(repo=None):
         "joinExpect": value_of(j_tok, consts),
         "dropExpect": value_of(d_tok, consts),
         "setTidRet": "set_tid_0" in epilogue and "tsm_dealloc" in epilogue and epilogue.index("set_tid_0") < epilogue.index("tsm_dealloc"),
+        "dropValH": "drop_value" in drop_ops and "tsm_dealloc" in drop_ops and "wait" in drop_ops and drop_ops.index("wait") < drop_ops.index("drop_value") < drop_ops.index("tsm_dealloc"),
+        "dropValT": "drop_value" in epilogue and "tsm_dealloc" in epilogue and epilogue.index("drop_value") < epilogue.index("tsm_dealloc"),
         "setTidPanic": "set_tid_0" in panic_ops and "tsm_dealloc" in panic_ops and panic_ops.index("set_tid_0") < panic_ops.index("tsm_dealloc"),
     }
     sync_tab = S.generate(repo)   # also refreshes Gen/SyncSites.lean; gives the futex key kind of wait / wake
@@ -170,7 +174,7 @@ def generate(repo=None):
         lines.append("def %s : List String := [%s]" % (name, ", ".join(L(x) for x in seq)))
     lines.append("def cloneAsmSyscalls : List Nat := [%s]" % ", ".join(str(x) for x in clone_asm))
     lines.append("def unfinished : Option Nat := %s" % ("none" if init_word is None else "some %d" % init_word))
-    for k in ["checkClone", "mmapCleanup", "setTidRet", "setTidPanic"]:
+    for k in ["checkClone", "mmapCleanup", "setTidRet", "setTidPanic", "dropValH", "dropValT"]:
         lines.append("def %s : Bool := %s" % (k, "true" if derived[k] else "false"))
     for k in ["initWord", "joinExpect", "dropExpect"]:
         # an operand the extractor cannot resolve becomes a value no futex word ever holds: the Lean check then fails
